@@ -15,8 +15,9 @@
   tables `vh gen` obtains by evaluating the linked recognisers on every Unicode scalar value.
 
   Trusted / not modelled: Go's regexp engine (the recogniser below is hand-written from the pattern text; the pattern
-  text and the per-position character classes are re-extracted on every run), pongo2 beyond the plain `{{ name }}`
-  fragment (`lexTemplate` answers `none` = "outside the modelled fragment"), the per-base-path template cache.
+  text and the per-position character classes are re-extracted on every run), pongo2 beyond the fragment
+  text | `{{ name }}` | `{% include "f" %}` | `{% extends "f" %}` | top-level `{% block %}` (`lexTemplate` / `scan`
+  answer `none` = "outside the modelled fragment"). The per-base-path template cache IS modelled (`Svc`, `step`, `run`).
   Core Lean only.
 -/
 import ControlModel.Basic
@@ -469,5 +470,455 @@ def processComponent (t : List Leaf) (q : Query) (vars : List (Str × Str)) : Pa
           .ok (renderSegs (fun n => escape (lookup (bindings vars) n)) segs)
         else .err "badident"
     | _ => .err "load"
+
+
+/-! ## templates with include / extends / block (pongo2 tags_include.go, tags_extends.go, tags_block.go)
+
+  The fragment:  text | `{{ name }}` | `{% include "f" %}` | `{% extends "f" %}` | `{% block b %}` … `{% endblock [b] %}`
+  with blocks at top level only and block bodies made of text, variables and includes. File names are string literals
+  without `"`, `\` and newline. Everything else (filters, other tags, `with`/`only`/`if_exists`, nested blocks, a second
+  `extends`, duplicate block names, `{%-`, comments, lazy includes …) is outside the fragment: `none` / `unmodelled`.
+
+  pongo2 resolves a string-literal include/extends at PARSE time (`set.FromFile`, never through the set's cache), so a
+  compiled template is a closed object: loading = parse + link. Block overriding along an `extends` chain is static
+  too (`getBlockWrappers`: the most derived definition wins; blocks unknown to the root ancestor are dropped; only the
+  root ancestor's document is executed), and an included template is executed with the includer's context (Public ∪
+  Private) under the same autoescape setting. Hence a compiled template is modelled as the FLAT list of `Seg`s it
+  executes. -/
+
+/-- `ConsulTemplateLoader.Abs(_, name)`: the including template's own name is ignored, only the set's base path counts. -/
+def absName (base name : Str) : Str :=
+  if name.head? == some '/' then name
+  else if base.isPrefixOf name then name
+  else if base.isEmpty then name
+  else base ++ '/' :: name
+
+/-- `path[:strings.LastIndex(path, "/")]`, "" when there is no "/". -/
+def basePathOf (path : Str) : Str := ((path.reverse.dropWhile (· != '/')).drop 1).reverse
+
+inductive Tok where
+  | seg (s : Seg)
+  | incl (f : Str)
+  | ext (f : Str)
+  | blk (n : Str)
+  | endblk (n : Option Str)
+  deriving Repr, DecidableEq
+
+def includeKw : Str := ['i', 'n', 'c', 'l', 'u', 'd', 'e']
+def extendsKw : Str := ['e', 'x', 't', 'e', 'n', 'd', 's']
+def blockKw : Str := ['b', 'l', 'o', 'c', 'k']
+def endblockKw : Str := ['e', 'n', 'd', 'b', 'l', 'o', 'c', 'k']
+
+/-- a plain variable name that is also not shadowed by pongo2's private `block` binding inside block bodies -/
+def plainNameT (n : Str) : Bool := plainName n && n != blockKw
+
+inductive TMode where
+  | text
+  | vpre | vname (acc : Str) | vpost (n : Str)   -- inside {{ }}
+  | tpre | tname (acc : Str)                     -- after {% : blanks, the tag name
+  | fpre (ext : Bool)                            -- include/extends: blanks before the opening quote
+  | fname (ext : Bool) (acc : Str)               -- inside the quoted file name
+  | bpre | bname (acc : Str)                     -- block: blanks, the block's name
+  | epre | ename (acc : Str)                     -- endblock: blanks, optional name
+  | close (tok : Tok)                            -- blanks, then %}
+
+def consTok (c : Char) : List Tok → List Tok
+  | .seg (.text t) :: more => .seg (.text (c :: t)) :: more
+  | toks => .seg (.text [c]) :: toks
+
+def fileTok (ext : Bool) (f : Str) : Tok := if ext then .ext f else .incl f
+
+/-- Lexer + tag parser of the fragment, one state machine over the characters (pongo2 lexer.go `run`/`stateCode`/
+    `stateIdentifier`/`stateString`, parser `parseTagElement` and the three tag parsers). -/
+def scan : TMode → Str → Option (List Tok)
+  | .text, [] => some []
+  | .text, '{' :: '{' :: rest => scan .vpre rest
+  | .text, '{' :: '%' :: rest => scan .tpre rest
+  | .text, '{' :: '#' :: _ => none
+  | .text, c :: rest => (scan .text rest).map (consTok c)
+  | .vpre, [] => none
+  | .vpre, c :: rest =>
+    if isTagSpace c then scan .vpre rest
+    else if isIdentStart c then scan (.vname [c]) rest
+    else none
+  | .vname _, [] => none
+  | .vname acc, c :: rest =>
+    if isIdentChar c then scan (.vname (c :: acc)) rest
+    else if isTagSpace c then scan (.vpost acc.reverse) rest
+    else if c == '}' then
+      match rest with
+      | '}' :: rest' => if plainNameT acc.reverse then (scan .text rest').map (Tok.seg (.var acc.reverse) :: ·) else none
+      | _ => none
+    else none
+  | .vpost _, [] => none
+  | .vpost n, c :: rest =>
+    if isTagSpace c then scan (.vpost n) rest
+    else if c == '}' then
+      match rest with
+      | '}' :: rest' => if plainNameT n then (scan .text rest').map (Tok.seg (.var n) :: ·) else none
+      | _ => none
+    else none
+  | .tpre, [] => none
+  | .tpre, c :: rest =>
+    if isTagSpace c then scan .tpre rest
+    else if isIdentStart c then scan (.tname [c]) rest
+    else none
+  | .tname _, [] => none
+  | .tname acc, c :: rest =>
+    if isIdentChar c then scan (.tname (c :: acc)) rest
+    else if acc.reverse == includeKw || acc.reverse == extendsKw then
+      if isTagSpace c then scan (.fpre (acc.reverse == extendsKw)) rest
+      else if c == '"' then scan (.fname (acc.reverse == extendsKw) []) rest
+      else none
+    else if acc.reverse == blockKw then
+      if isTagSpace c then scan .bpre rest else none
+    else if acc.reverse == endblockKw then
+      if isTagSpace c then scan .epre rest
+      else if c == '%' then
+        match rest with
+        | '}' :: rest' => (scan .text rest').map (Tok.endblk none :: ·)
+        | _ => none
+      else none
+    else none
+  | .fpre _, [] => none
+  | .fpre e, c :: rest =>
+    if isTagSpace c then scan (.fpre e) rest
+    else if c == '"' then scan (.fname e []) rest
+    else none
+  | .fname _ _, [] => none
+  | .fname e acc, c :: rest =>
+    if c == '"' then scan (.close (fileTok e acc.reverse)) rest
+    else if c == '\\' || c == '\n' then none
+    else scan (.fname e (c :: acc)) rest
+  | .bpre, [] => none
+  | .bpre, c :: rest =>
+    if isTagSpace c then scan .bpre rest
+    else if isIdentStart c then scan (.bname [c]) rest
+    else none
+  | .bname _, [] => none
+  | .bname acc, c :: rest =>
+    if isIdentChar c then scan (.bname (c :: acc)) rest
+    else if keywords.contains acc.reverse then none
+    else if isTagSpace c then scan (.close (.blk acc.reverse)) rest
+    else if c == '%' then
+      match rest with
+      | '}' :: rest' => (scan .text rest').map (Tok.blk acc.reverse :: ·)
+      | _ => none
+    else none
+  | .epre, [] => none
+  | .epre, c :: rest =>
+    if isTagSpace c then scan .epre rest
+    else if isIdentStart c then scan (.ename [c]) rest
+    else if c == '%' then
+      match rest with
+      | '}' :: rest' => (scan .text rest').map (Tok.endblk none :: ·)
+      | _ => none
+    else none
+  | .ename _, [] => none
+  | .ename acc, c :: rest =>
+    if isIdentChar c then scan (.ename (c :: acc)) rest
+    else if keywords.contains acc.reverse then none
+    else if isTagSpace c then scan (.close (.endblk (some acc.reverse))) rest
+    else if c == '%' then
+      match rest with
+      | '}' :: rest' => (scan .text rest').map (Tok.endblk (some acc.reverse) :: ·)
+      | _ => none
+    else none
+  | .close _, [] => none
+  | .close tok, c :: rest =>
+    if isTagSpace c then scan (.close tok) rest
+    else if c == '%' then
+      match rest with
+      | '}' :: rest' => (scan .text rest').map (tok :: ·)
+      | _ => none
+    else none
+
+/-- what a block body may hold -/
+inductive BItem where
+  | seg (s : Seg)
+  | incl (f : Str)
+  deriving Repr, DecidableEq
+
+/-- top-level items of one template file -/
+inductive Item where
+  | b (x : BItem)
+  | ext (f : Str)
+  | block (n : Str) (body : List BItem)
+  deriving Repr
+
+/-- `WrapUntilTag("endblock")`: group the tokens between `block` and `endblock`; `st` = the open block (name, body so
+    far, reversed). A named `endblock` must repeat the block's name. -/
+def group : Option (Str × List BItem) → List Tok → Option (List Item)
+  | none, [] => some []
+  | some _, [] => none
+  | none, .seg s :: r => (group none r).map (Item.b (.seg s) :: ·)
+  | none, .incl f :: r => (group none r).map (Item.b (.incl f) :: ·)
+  | none, .ext f :: r => (group none r).map (Item.ext f :: ·)
+  | none, .blk n :: r => group (some (n, [])) r
+  | none, .endblk _ :: _ => none
+  | some (n, acc), .seg s :: r => group (some (n, .seg s :: acc)) r
+  | some (n, acc), .incl f :: r => group (some (n, .incl f :: acc)) r
+  | some _, .ext _ :: _ => none
+  | some _, .blk _ :: _ => none
+  | some (n, acc), .endblk m :: r =>
+    if m == none || m == some n then (group none r).map (Item.block n acc.reverse :: ·) else none
+
+def extCount : List Item → Nat
+  | [] => 0
+  | .ext _ :: r => extCount r + 1
+  | _ :: r => extCount r
+
+def blockNames : List Item → List Str
+  | [] => []
+  | .block n _ :: r => n :: blockNames r
+  | _ :: r => blockNames r
+
+def distinct : List Str → Bool
+  | [] => true
+  | x :: r => !r.contains x && distinct r
+
+/-- at most one `extends`, no block defined twice (pongo2 raises parser errors otherwise: not modelled) -/
+def itemsOk (items : List Item) : Bool := decide (extCount items ≤ 1) && distinct (blockNames items)
+
+def parseItems (content : Str) : Option (List Item) :=
+  match scan .text content with
+  | none => none
+  | some toks =>
+    match group none toks with
+    | none => none
+    | some items => if itemsOk items then some items else none
+
+inductive LinkRes (α : Type) where
+  | ok (a : α)
+  | err (cls : String)
+  | unmodelled
+  deriving Repr, DecidableEq
+
+def LinkRes.map {α β : Type} (f : α → β) : LinkRes α → LinkRes β
+  | .ok a => .ok (f a)
+  | .err c => .err c
+  | .unmodelled => .unmodelled
+
+/-- nodes of a linked template: blocks keep their names so that a template extending this one can still override them -/
+inductive RNode where
+  | seg (s : Seg)
+  | block (n : Str) (body : List Seg)
+  deriving Repr, DecidableEq
+
+/-- what executing the document writes: a block executes its (effective) body in place -/
+def flatten : List RNode → List Seg
+  | [] => []
+  | .seg s :: r => s :: flatten r
+  | .block _ b :: r => b ++ flatten r
+
+def ownBlocks : List RNode → List (Str × List Seg)
+  | [] => []
+  | .seg _ :: r => ownBlocks r
+  | .block n b :: r => (n, b) :: ownBlocks r
+
+/-- the parent's document with every block the child defines replaced by the child's body -/
+def override (own : List (Str × List Seg)) : List RNode → List RNode
+  | [] => []
+  | .seg s :: r => .seg s :: override own r
+  | .block n b :: r =>
+    (match own.find? (fun d => d.1 == n) with
+     | some d => RNode.block n d.2
+     | none => RNode.block n b) :: override own r
+
+/-- block bodies: an include is replaced by what the included template executes -/
+def resolveB (rec : Str → LinkRes (List RNode)) (base : Str) : List BItem → LinkRes (List Seg)
+  | [] => .ok []
+  | .seg s :: r => (resolveB rec base r).map (s :: ·)
+  | .incl f :: r =>
+    match rec (absName base f) with
+    | .ok nodes => (resolveB rec base r).map (flatten nodes ++ ·)
+    | .err c => .err c
+    | .unmodelled => .unmodelled
+
+structure Linked where
+  parent : Option (List RNode)
+  own : List RNode
+
+/-- the items of one file in document order (so that the first load error is the one reported) -/
+def resolveItems (rec : Str → LinkRes (List RNode)) (base : Str) : List Item → LinkRes Linked
+  | [] => .ok ⟨none, []⟩
+  | .b (.seg s) :: r => (resolveItems rec base r).map fun l => { l with own := .seg s :: l.own }
+  | .b (.incl f) :: r =>
+    match rec (absName base f) with
+    | .ok nodes => (resolveItems rec base r).map fun l => { l with own := (flatten nodes).map RNode.seg ++ l.own }
+    | .err c => .err c
+    | .unmodelled => .unmodelled
+  | .ext f :: r =>
+    match rec (absName base f) with
+    | .ok nodes => (resolveItems rec base r).map fun l => { l with parent := some nodes }
+    | .err c => .err c
+    | .unmodelled => .unmodelled
+  | .block n body :: r =>
+    match resolveB rec base body with
+    | .ok segs => (resolveItems rec base r).map fun l => { l with own := .block n segs :: l.own }
+    | .err c => .err c
+    | .unmodelled => .unmodelled
+
+/-- parse + link one file's content; `rec` loads a referenced file -/
+def linkContent (rec : Str → LinkRes (List RNode)) (base : Str) (content : Str) : LinkRes (List RNode) :=
+  match parseItems content with
+  | none => .unmodelled
+  | some items =>
+    match resolveItems rec base items with
+    | .ok l =>
+      .ok (match l.parent with
+           | none => l.own
+           | some p => override (ownBlocks l.own) p)
+    | .err c => .err c
+    | .unmodelled => .unmodelled
+
+/-- `ConsulTemplateLoader.Get(path)`: NewQuery(path), then GetComponentConfiguration — no fallback for includes. -/
+def readFile (t : List Leaf) (path : Str) : Option Str :=
+  match parse path with
+  | none => none
+  | some q =>
+    match getComponent t q with
+    | .ok c => some c
+    | _ => none
+
+/-- `TemplateSet.FromFile(path)` with `fuel` levels of include/extends nesting (the code has no bound: a cyclic chain
+    overflows the stack; with `fuel` > number of entries every acyclic chain is followed to its end). -/
+def linkPath : Nat → List Leaf → Str → Str → LinkRes (List RNode)
+  | 0, _, _, _ => .unmodelled
+  | n + 1, t, base, path =>
+    match readFile t path with
+    | none => .err "load"
+    | some content => linkContent (linkPath n t base) base content
+
+/-- compile the template at `path` against the backend `t`: what `tplSet.FromCache(shortPath)` builds on a miss, for the
+    set of `basePathOf path` -/
+def compileP (t : List Leaf) (path : Str) : LinkRes (List Seg) :=
+  (linkPath (t.length + 1) t (basePathOf path) path).map flatten
+
+/-- `tpl.Execute(bindings)`: context-key check, then substitution of the HTML-escaped values -/
+def execT (segs : List Seg) (vars : List (Str × Str)) : Payload :=
+  if (bindings vars).all (fun kv => validIdent kv.1) then
+    .ok (renderSegs (fun n => escape (lookup (bindings vars) n)) segs)
+  else .err "badident"
+
+/-! ## one service, many requests (apricot/local/service.go: `templateSets`, `templateSetForBasePath`,
+       `InvalidateComponentTemplateCache`; pongo2 `TemplateSet.FromCache`)
+
+  The only state a `Service` carries from one request to the next is `templateSets`: base path ↦ pongo2 TemplateSet,
+  each with its `templateCache`: cleaned file name ↦ compiled template. For a printed query path `p` the base path is
+  `basePathOf p` and the cleaned name is `Abs("", short) = p`, so both maps together are ONE map path ↦ compiled
+  template. A template enters it when `FromCache` misses and `FromFile` succeeds (load, lex and parse errors are not
+  cached), stays whatever the backend does afterwards, and leaves only with `InvalidateComponentTemplateCache` (which
+  drops everything). The variables of a request are bound into a fresh map per request and never reach the set. -/
+
+structure Svc where
+  tree : List Leaf
+  cache : List (Str × List Seg)
+
+inductive Op where
+  | proc (q : Query) (vars : List (Str × Str))     -- GetAndProcessComponentConfiguration
+  | rproc (q : Query) (vars : List (Str × Str))    -- ResolveComponentQuery, then GetAndProcess… of the resolved query
+  | get (q : Query)                                -- GetComponentConfiguration
+  | inval                                          -- InvalidateComponentTemplateCache
+  | put (key : Str) (content : Str)                -- the backend changes: `key` holds the value `content`
+  | del (key : Str)                                -- the backend changes: `key` is gone
+  deriving Repr
+
+inductive Resp where
+  | pay (p : Payload)
+  | res (r : Option Query) (p : Payload)
+  | dash
+  deriving Repr, DecidableEq
+
+def putLeaf (t : List Leaf) (key content : Str) : List Leaf :=
+  ⟨splitOn '/' key, some content⟩ :: t.filter (fun l => l.path != splitOn '/' key)
+
+def delLeaf (t : List Leaf) (key : Str) : List Leaf :=
+  t.filter (fun l => l.path != splitOn '/' key)
+
+/-- GetAndProcessComponentConfiguration(q, vars) on a service in state `s` -/
+def procStep (s : Svc) (q : Query) (vars : List (Str × Str)) : Svc × Payload :=
+  match s.cache.find? (fun e => e.1 == print q) with
+  | some e => (s, execT e.2 vars)
+  | none =>
+    match compileP s.tree (print q) with
+    | .ok segs => ({ s with cache := (print q, segs) :: s.cache }, execT segs vars)
+    | .err c => (s, .err c)
+    | .unmodelled => (s, .unmodelled)
+
+def step (s : Svc) : Op → Svc × Resp
+  | .proc q vars => let r := procStep s q vars; (r.1, .pay r.2)
+  | .rproc q vars =>
+    match resolve (yamlExists s.tree) q with
+    | none => (s, .res none .dash)
+    | some rq => let r := procStep s rq vars; (r.1, .res (some rq) r.2)
+  | .get q => (s, .pay (getComponent s.tree q))
+  | .inval => ({ s with cache := [] }, .dash)
+  | .put key content => ({ s with tree := putLeaf s.tree key content }, .dash)
+  | .del key => ({ s with tree := delLeaf s.tree key }, .dash)
+
+/-- the responses of a whole history -/
+def run (s : Svc) : List Op → List Resp
+  | [] => []
+  | op :: ops => (step s op).2 :: run (step s op).1 ops
+
+/-- the state after a history -/
+def after (s : Svc) : List Op → Svc
+  | [] => s
+  | op :: ops => after (step s op).1 ops
+
+/-- the backend after a history: only `put` and `del` touch it -/
+def treeAfter (t : List Leaf) : List Op → List Leaf
+  | [] => t
+  | .put key content :: r => treeAfter (putLeaf t key content) r
+  | .del key :: r => treeAfter (delLeaf t key) r
+  | _ :: r => treeAfter t r
+
+/-- a service that has never answered a request -/
+def freshSvc (t : List Leaf) : Svc := ⟨t, []⟩
+
+/-- what a FRESH service answers: the reference the property's payload clause speaks about -/
+def processT (t : List Leaf) (q : Query) (vars : List (Str × Str)) : Payload := (procStep (freshSvc t) q vars).2
+
+/-- the history replayed with a fresh service for every request (the backend changes are kept) -/
+def runFresh (t : List Leaf) : List Op → List Resp
+  | [] => []
+  | op :: ops => (step (freshSvc t) op).2 :: runFresh (step (freshSvc t) op).1.tree ops
+
+/-- Hypothesis of the freshness theorem: no processed request between a backend change and the next invalidation
+    (`seen`: something may be cached; `dirty`: the backend changed while something may have been cached). -/
+def noStaleFrom (seen dirty : Bool) : List Op → Bool
+  | [] => true
+  | .proc _ _ :: r => !dirty && noStaleFrom true dirty r
+  | .rproc _ _ :: r => !dirty && noStaleFrom true dirty r
+  | .get _ :: r => noStaleFrom seen dirty r
+  | .inval :: r => noStaleFrom false false r
+  | .put _ _ :: r => noStaleFrom seen (dirty || seen) r
+  | .del _ :: r => noStaleFrom seen (dirty || seen) r
+
+def noStale (ops : List Op) : Bool := noStaleFrom false false ops
+
+/-- two histories that differ at most in the variables of their requests -/
+def sameButVars : List Op → List Op → Bool
+  | [], [] => true
+  | .proc q _ :: r, .proc q' _ :: r' => q == q' && sameButVars r r'
+  | .rproc q _ :: r, .rproc q' _ :: r' => q == q' && sameButVars r r'
+  | .get q :: r, .get q' :: r' => q == q' && sameButVars r r'
+  | .inval :: r, .inval :: r' => sameButVars r r'
+  | .put k c :: r, .put k' c' :: r' => k == k' && c == c' && sameButVars r r'
+  | .del k :: r, .del k' :: r' => k == k' && sameButVars r r'
+  | _, _ => false
+
+/-! ## what the request path does with the shared template set (compared with go/ast's view of apricot/local) -/
+
+/-- selectors applied to the cached `*pongo2.TemplateSet` inside GetAndProcessComponentConfiguration: it is only asked
+    for the compiled template; in particular nothing of a request (variables, functions) is written into it. -/
+def tplSetUses : List Str := [['F', 'r', 'o', 'm', 'C', 'a', 'c', 'h', 'e']]
+/-- …and it is not passed on or assigned anywhere else -/
+def tplSetOtherRefs : Nat := 0
+/-- the functions of apricot/local that touch the map of template sets: the invalidation and the lookup-or-create -/
+def templateSetsUsers : List Str := [
+  ['I', 'n', 'v', 'a', 'l', 'i', 'd', 'a', 't', 'e', 'C', 'o', 'm', 'p', 'o', 'n', 'e', 'n', 't', 'T', 'e', 'm', 'p', 'l', 'a', 't', 'e', 'C', 'a', 'c', 'h', 'e'],
+  ['t', 'e', 'm', 'p', 'l', 'a', 't', 'e', 'S', 'e', 't', 'F', 'o', 'r', 'B', 'a', 's', 'e', 'P', 'a', 't', 'h']]
 
 end Query
